@@ -165,20 +165,54 @@ def coq_make(targets=None, timeout=1500):
         return rc == 0, out
 
 
-def lint_coq():
-    """Forbidden-word scan over the whole development (comments stripped)."""
-    bad = []
-    for root, _, files in os.walk(COQ):
-        if os.path.basename(root) == "cases":
+def coq_cone(vfile):
+    """the .v files props/Cnn.v transitively depends on (from coqdep), including itself"""
+    files = []
+    for d in COQ_DIRS:
+        dd = os.path.join(COQ, d)
+        if os.path.isdir(dd):
+            for root, _, fns in os.walk(dd):
+                for fn in fns:
+                    if fn.endswith(".v"):
+                        files.append(os.path.relpath(os.path.join(root, fn), COQ))
+    rc, out = sh(["coqdep", "-R", ".", "Zn"] + sorted(files), cwd=COQ, timeout=120)
+    deps = {}
+    for line in out.split("\n"):
+        if ":" not in line or ".vo" not in line:
             continue
-        for fn in files:
-            if not fn.endswith(".v"):
+        lhs, rhs = line.split(":", 1)
+        tgt = [t for t in lhs.split() if t.endswith(".vo")]
+        if not tgt:
+            continue
+        src = tgt[0][:-1]
+        deps[src] = [t[:-1] for t in rhs.split() if t.endswith(".vo") and not t.startswith("/")]
+    cone, todo = set(), [vfile]
+    while todo:
+        f = todo.pop()
+        if f in cone:
+            continue
+        cone.add(f)
+        todo.extend(deps.get(f, []))
+    return sorted(cone)
+
+
+def lint_coq(vfile=None):
+    """Forbidden-word scan (comments stripped) over the dependency cone of vfile, or the whole development."""
+    if vfile is not None:
+        paths = [os.path.join(COQ, f) for f in coq_cone(vfile)]
+    else:
+        paths = []
+        for root, _, files in os.walk(COQ):
+            if os.path.basename(root) == "cases":
                 continue
-            p = os.path.join(root, fn)
-            txt = open(p, encoding="utf8").read()
-            txt = strip_coq_comments(txt)
-            for m in FORBIDDEN.finditer(txt):
-                bad.append("%s: %s" % (os.path.relpath(p, VERIF), m.group(0)))
+            paths += [os.path.join(root, fn) for fn in files if fn.endswith(".v")]
+    bad = []
+    for p in paths:
+        if not os.path.exists(p):
+            continue
+        txt = strip_coq_comments(open(p, encoding="utf8").read())
+        for m in FORBIDDEN.finditer(txt):
+            bad.append("%s: %s" % (os.path.relpath(p, VERIF), m.group(0)))
     return bad
 
 
@@ -371,7 +405,7 @@ class Check:
         except OSError:
             pass
         ok, log = coq_make([vo] + (extra_targets or []))
-        bad = lint_coq()
+        bad = lint_coq(vfile)
         if bad:
             ok = False
             log += "\nFORBIDDEN: " + "; ".join(bad)
